@@ -23,6 +23,9 @@ var (
 
 // AppendString to a buffer while escaping characters as necessary.
 func AppendString(buf []byte, s string, delim byte) []byte {
+	if delim == '/' {
+		return appendRegex(buf, s)
+	}
 	buf = append(buf, delim)
 	start := 0
 	skip := 0
@@ -84,4 +87,27 @@ func AppendString(buf []byte, s string, delim byte) []byte {
 		buf = append(buf, s[start:]...)
 	}
 	return append(buf, delim)
+}
+
+// appendRegex appends the source of a regular expression between slashes. The
+// source is already escaped as a regexp so it is copied as is except that a
+// slash that is not escaped is written as \/ so that the reader does not take
+// it as the end of the expression.
+func appendRegex(buf []byte, s string) []byte {
+	buf = append(buf, '/')
+	for i := 0; i < len(s); i++ {
+		switch s[i] {
+		case '\\':
+			buf = append(buf, s[i])
+			if i+1 < len(s) {
+				i++
+				buf = append(buf, s[i])
+			}
+		case '/':
+			buf = append(buf, '\\', '/')
+		default:
+			buf = append(buf, s[i])
+		}
+	}
+	return append(buf, '/')
 }
